@@ -3,7 +3,9 @@
 (* Property-level specification of two gates of C16 outside the token      *)
 (* flavours: the pausable module through examples/pausable (a counter       *)
 (* whose increment is #[when_not_paused]) and the upgrade / migrate flags   *)
-(* of contract-utils/upgradeable through examples/upgradeable v1 -> v2.     *)
+(* of contract-utils/upgradeable through examples/upgradeable v1 -> v2     *)
+(* (flavour "upgrade") and a v2 deployed directly, never upgraded           *)
+(* (flavour "upgrade2": a migration must never complete without an upgrade).*)
 (*                                                                         *)
 (* Event: ev.op = [op, caller, auth]; op \in {"increment", "ereset",        *)
 (*   "pause", "unpause", "upgrade", "migrate"};  ev.res; ev.ret (value      *)
@@ -39,9 +41,9 @@ Ante(m, g, ev) ==
     [] m = "C16_gate_alt"   -> g.flavour = "counter" /\ ok /\ o.op \in {"pause", "unpause"}
     [] m = "C16_gate_works" -> g.flavour = "counter" /\ ~g.paused /\ o.op = "increment"
     [] m = "C16_gate_state" -> g.flavour = "counter"
-    [] m = "C16_migrate_needs_upgrade" -> g.flavour = "upgrade" /\ o.op = "migrate" /\ ok
-    [] m = "C16_migrate_once"  -> g.flavour = "upgrade" /\ o.op = "migrate" /\ g.pending /\ Authorized(g, o)
-    [] m = "C16_migrate_state" -> g.flavour = "upgrade"
+    [] m = "C16_migrate_needs_upgrade" -> g.flavour \in {"upgrade", "upgrade2"} /\ o.op = "migrate" /\ ok
+    [] m = "C16_migrate_once"  -> g.flavour \in {"upgrade", "upgrade2"} /\ o.op = "migrate" /\ g.pending /\ Authorized(g, o)
+    [] m = "C16_migrate_state" -> g.flavour \in {"upgrade", "upgrade2"}
 
 Cons(m, g, ev) ==
   LET o == ev.op  ok == ev.res = "ok" IN
